@@ -59,6 +59,10 @@ def _files():
     files["generated/notes.txt"] = "not a python file\n"
     files["generated/auto/readme.md"] = "generated\n"
     files["perfcase/regex_loop.py"] = "import re\n\n\ndef scan(lines):\n    for line in lines:\n        re.search('x+', line)\n"
+    # a duplicated block that in-file directives suppress (looked up again when dry finalizes)
+    blk = "    alpha = fetch_alpha(job)\n    beta = alpha.transform(job)\n    gamma = combine(alpha, beta)\n    delta = publish(gamma, job)\n    return finish(delta)\n"
+    files["dupsup/first.py"] = "def first_total(job):\n    # thailint: ignore-start dry\n" + blk + "    # thailint: ignore-end\n"
+    files["dupsup/second.py"] = "def second_total(job):\n    # thailint: ignore-start dry\n" + blk + "    # thailint: ignore-end\n"
     # repository-level patterns with a nested directory prefix (one per carrier)
     files["archive/old/dead.py"] = "def d(n):\n    print(3605)\n    return n * 3606\n"
     files["archive/parked/idle.py"] = "def i(n):\n    print(3607)\n    return n * 3608\n"
